@@ -111,6 +111,75 @@ CHECKS = {
         "un-closed files. Not covered: power loss / block-level reordering, "
         "more than 3 processes.",
         "DESIGN.md 4/C19"),
+    "C04": (
+        "E1-enum",
+        "exhaustive enumeration of grid trajectory pairs x alignment modes on "
+        "the real align()/align_origin()/ape()/rpe()/evo_ape, oracle = Horn",
+        "Every grid path of 3..5 (thorough 6) poses over a 5-step alphabet, "
+        "paired with its image under generating similarities (scale 1e-2.."
+        "1e2) with noise {none, one pose, unrelated}, x {rigid, similarity, "
+        "scale-only, origin} x n in {-1,3..N} x both storage modes x cache "
+        "states: poses moved by exactly the returned parameters, reference "
+        "untouched, parameters = optimum of the first n pairs and independent "
+        "of later poses, RMSE never worse / optimal, second alignment is the "
+        "identity; recorded alignment matrix of ape()/rpe()/evo_ape/evo_rpe "
+        "maps the unaligned estimate onto the stored one for 6 option "
+        "combinations.",
+        "Trusted: Horn oracle; tolerance 1e-9 x coordinate scale. Not covered: "
+        "paths outside the step alphabet, > 6 poses.",
+        "DESIGN.md 4/C04"),
+    "C09": (
+        "E1-enum",
+        "exhaustive enumeration over a hard rotation alphabet (all elements, "
+        "pairs, triples) on the real lie_algebra functions",
+        "107 rotations (angles 1e-16..1e-3, pi-1e-12..pi, k*pi/8 about 5 axes, "
+        "24 cube rotations, seed-dependent generic) x 5 translations (1e-6.."
+        "1e9) x 7 scales (1e-4..1e4): exp/log/hat/vee inverses, angle in "
+        "[0,pi] against an atan2 oracle incl. relative accuracy of tiny "
+        "angles, SE(3)/Sim(3) inverses and scale recovery, membership of "
+        "genuine elements, rejection of 12 near-miss classes and 4 bottom "
+        "rows; all pairs: metric value, symmetry, zero only for equal, "
+        "bi-invariance; all triples: triangle inequality.",
+        "Trusted: numpy-only rotation oracle (mc/refmodel/geom.py). Not "
+        "covered: rotations outside the alphabet; near-miss matrices between "
+        "1e-9 and 1e-5 from the group (acceptance radius is not specified).",
+        "DESIGN.md 4/C09"),
+    "C15": (
+        "E4-cli",
+        "exhaustive (thorough) / pairwise-covering (quick) exploration of the "
+        "evo_traj option lattice through the real parser and run(), oracle = "
+        "reference pipeline + independent file parsers",
+        "11-dimensional option lattice (files, downsample, motion filter, "
+        "merge, t_offset, 7 sync/alignment modes, n_to_align, 43 "
+        "transformation variants {left,right} x invert x propagate x "
+        "{SE(3),Sim(3)} x {npy,txt,json}, projection, export format, "
+        "t_max_diff) plus a KITTI/EuRoC lattice: every exported file is parsed "
+        "by an independent parser and compared with the reference pipeline in "
+        "the documented order; predicted refusals must be refusals; identity "
+        "run must reproduce the input bit for bit.",
+        "Trusted: reference pipeline (mc/refmodel/pipeline.py), Horn oracle, "
+        "evo's own project() for the orientation of non-planar projections. "
+        "Not covered: bag input/output, other fixtures.",
+        "DESIGN.md 4/C15"),
+    "C18": (
+        "E2-hist",
+        "explicit-state BFS over settings-edit histories on the real config "
+        "functions + exhaustive option/option-pair enumeration through the "
+        "real parsers for generate/-c equivalence",
+        "Part A: all histories to depth 2 (thorough 3) over 79 edit operations "
+        "(set with 11 value-token lists on 6 key kinds, unknown keys, "
+        "multi-key sets, subset/all reset, hard/soft merge, upgrade with "
+        "missing keys) with per-step invariants (key set, only named keys "
+        "change, bool/list/number typing, reset/merge/upgrade semantics). "
+        "Part B: every typed long option of the evo_ape/evo_rpe/evo_traj "
+        "parsers x several numeric spellings, and ordered pairs of options: "
+        "direct parsing vs -c generated.json; namespace differences are "
+        "decided by executing both and comparing outputs. Part C: -c "
+        "priority, per-run settings override, locked container.",
+        "Trusted: introspection of argparse actions; output comparison of "
+        "result zips / exported files. Not covered: short options, triples of "
+        "options.",
+        "DESIGN.md 4/C18"),
 }
 
 NOT_YET = {
